@@ -103,12 +103,17 @@ def classify(c, got):
     """known-finding class of a disagreement between the library and the reference: the class is
     decided by re-running the reference with exactly that deviation switched on; the library's value
     must then agree (anything else stays a violation)"""
+    # K21 (the namespace axis returns the in-scope xmlns declaration attributes) is decided the same way: the
+    # reference is re-run with xpref.Ref(k21=True) - alone first, then together with K6 / K13 when the expression
+    # also meets those - and the library's value must be THAT value.  A namespace-axis result the finding does not
+    # explain (e.g. a default namespace that an xmlns="" had undeclared showing up again) stays a violation.
+    combos = [(False, True, False, "K6"), (False, False, True, "K13"), (False, True, True, "K6")]
     if has_axis(c["expr"], "namespace"):
-        return "K21"
-    for units, negzero, key in ((True, False, "K6"), (False, True, "K13"), (True, True, "K6")):
+        combos = [(True, False, False, "K21")] + combos + [(True, True, False, "K21"), (True, False, True, "K21"), (True, True, True, "K21")]
+    for k21, units, negzero, key in combos:
         if units and not (c["nonbmp"] or any(ord(ch) > 0xFFFF for ch in c["str"])):
             continue
-        alt = ref_eval(c, units=units, negzero=negzero)
+        alt = ref_eval(c, units=units, negzero=negzero, k21=k21)
         if alt not in ("err", "skip") and got != "err" and same_value(got, alt):
             return key
     return None
@@ -365,8 +370,103 @@ def id_part(ctx, impl, orc, proved, known):
     return cases
 
 
-def ref_eval(c, units=False, negzero=False):
-    ref = xpref.Ref(c["nodes"], c["vars"], units=units, negzero=negzero, ids=c.get("ids"))
+def gen_ns_cases(r, n_docs, per_doc, prefix="n"):
+    """the namespace-axis stream (known finding K21 and everything next to it): documents whose namespace
+    environment changes at several depths (xpgen.gen_ns_doc: xmlns="" below a non-empty default declaration, with
+    nothing to undeclare, a default declared again below the undeclaration, p / q declared again with the same or
+    another URI) x expressions around namespace:: steps (xpgen.NsExprGen).  `r` is the stream's OWN
+    random.Random (seeded from ctx.rng after every other draw)."""
+    cases, k = [], 0
+    for di in range(n_docs):
+        top, dcls = xpgen.gen_ns_doc(r, "small" if r.random() < 0.6 else "big")
+        nodes = xpgen.build_nodes(top)
+        dtoks = xpgen.doc_tokens(top)
+        elems = [n.id for n in nodes if n.kind == "elem"]
+        nonattr = [n.id for n in nodes if n.kind not in ("attr", "nsdecl")]
+        # the elements on which the finding's boundary lies: the default namespace is undeclared at or above them
+        # while a farther ancestor declares one
+        below = []
+        for n in nodes:
+            if n.kind == "elem" and n.nsenv.get("", None) == "":
+                a = n.parent
+                while a is not None and a.kind == "elem":
+                    if a.nsenv.get("", "") != "":
+                        below.append(n.id)
+                        break
+                    a = a.parent
+        variables = {
+            "n1": ("num", r.choice([1.0, 2.0, 3.0])),
+            "s1": ("str", r.choice(["urn:d", "", "p"])),
+            "b1": ("bool", r.random() < 0.5),
+            "ns1": ("nodes", sorted(r.sample(elems, min(len(elems), r.randrange(1, 4))))),
+            "e1": ("nodes", []),
+        }
+        vfield = ";".join("%s=%s" % (name, {"num": lambda v: "n:" + xpgen.dbits(v),
+                                              "str": lambda v: "s:" + xpgen.tok(v),
+                                              "bool": lambda v: "b:%d" % v,
+                                              "nodes": lambda v: "ns:" + ",".join(map(str, v))}[t](v))
+                          for name, (t, v) in variables.items())
+        g = xpgen.NsExprGen(r, nodes, variables)
+        for _ in range(per_doc):
+            e = g.gen()
+            q = r.random()
+            if below and q < 0.45:
+                cn = r.choice(below)
+            elif q < 0.9:
+                cn = r.choice(elems)
+            else:
+                cn = r.choice([n.id for n in nodes if n.kind != "nsdecl"])
+            if r.random() < 0.5 and nodes[cn].parent is not None and nodes[cn].kind not in ("attr", "nsdecl"):
+                cl = [c.id for c in nodes[cn].parent.children]
+            else:
+                cl = sorted(set(r.sample(nonattr, min(len(nonattr), r.randrange(0, 3))) + [cn]))
+            s = xpgen.p_expr(e, r)
+            line = "%s%d|eval|D:%s|C:%d;%s|V:%s|N:p=%s;q=%s|X:%s|A:%s" % (
+                prefix, k, dtoks, cn, ",".join(map(str, cl)), vfield, xpgen.tok("urn:p"), xpgen.tok("urn:q"), xpgen.tok(s), xpgen.sx_expr(e))
+            cases.append({"id": "%s%d" % (prefix, k), "line": line, "expr": e, "str": s, "nodes": nodes, "ctx": cn, "cl": cl,
+                          "vars": {n: v for n, (t, v) in variables.items()}, "nonbmp": False, "doc": dtoks,
+                          "cls": "nsaxis:" + e[0] + (":" + e[1] if e[0] == "fn" else ""), "dcls": sorted(dcls), "below": cn in below})
+            k += 1
+    return cases
+
+
+def ns_stream(ctx, impl, model, n_docs, per_doc, prefix="n"):
+    import random
+    r = random.Random(ctx.rng.getrandbits(64))
+    cases = gen_ns_cases(r, n_docs, per_doc, prefix)
+    seen_doc = set()
+    for c in cases:
+        if c["doc"] not in seen_doc:
+            seen_doc.add(c["doc"])
+            for cl in c["dcls"]:
+                ctx.count("nsdoc:" + cl)
+        if c["below"]:
+            ctx.count("nsaxis:context-below-undeclared-default")
+    ctx.cov.setdefault("samples", [])
+    ctx.cov["samples"] += [c["str"] for c in cases[:6]]
+    corr, orc = evaluate(ctx, cases, impl, model)
+    ctx.notes["ns_stream_cases"] = ctx.notes.get("ns_stream_cases", 0) + len(cases)
+    return corr, orc
+
+
+def ns_part(ctx, impl, model, corr, orc, proved, known):
+    """the namespace-axis stream through both legs: correspondence (coq/XpDefs.v `namespaces` is the model of
+    XPath::findNamespace) and oracle (the Recommendation; a deviation is K21 only when the library's value is the
+    value of the reference with exactly that deviation switched on, see classify).  A broken tie widens it."""
+    n_docs, per_doc = (60, 25) if not ctx.thorough else (600, 50)
+    c1, o1 = ns_stream(ctx, impl, model, n_docs, per_doc)
+    new = [o for o in o1 if not (o["known"] and o["known"] in known)]
+    if (c1 or not proved or not model) and not new and not ctx.thorough:
+        ctx.escalated = True
+        c2, o2 = ns_stream(ctx, impl, model, 400, 30, prefix="nw")
+        c1 += c2
+        o1 += o2
+    corr += c1
+    orc += o1
+
+
+def ref_eval(c, units=False, negzero=False, k21=False):
+    ref = xpref.Ref(c["nodes"], c["vars"], units=units, negzero=negzero, ids=c.get("ids"), k21=k21)
     pos = (c["cl"].index(c["ctx"]) + 1) if c["ctx"] in c["cl"] else 0
     try:
         return ref.ev(c["expr"], c["ctx"], pos, len(c["cl"]))
@@ -857,6 +957,8 @@ def run(ctx):
     # HERE, after every other draw, so the streams above are what they were before this stream existed.
     id_part(ctx, impl, orc, proved, known)
     ws_stream(ctx, cases, impl, 3000 if not ctx.thorough else 30000)
+    # the namespace-axis stream: its random.Random is seeded from ctx.rng after every other stream, too
+    ns_part(ctx, impl, model, corr, orc, proved, known)
     new = [o for o in orc if not (o["known"] and o["known"] in known)]
     for o in orc:
         if o["known"] and o["known"] in known:
